@@ -42,7 +42,7 @@ def report(res, verbose=False, partial=False):
     for n in res['vac_bad']:
         print(f'VACUOUS: {n}: the precondition is unsatisfiable')
     for e in res['unknown']:
-        print(f'UNDECIDED: obligation {e["name"]} ({e.get("clause")}): solver returned unknown')
+        print(f'UNDECIDED: obligation {e["name"]} ({e.get("clause")}): solver returned unknown [{e.get("case", "")}]')
     for e, k in known_hits:
         print(f'KNOWN-FINDING: property={pid} {k.get("what", e["name"])}')
     for e in violations:
